@@ -292,14 +292,22 @@ Proof. intros T O c evs e H1 H2 H3 H4 H5 H6. exact (ti_line_only_at_stage_end O 
 Print Assumptions C06_ti_line_once_per_stage.
 
 (* ---- timeStepFactor f (the bias is updated only at steps that are multiples of f; run protocol run_tsf) ----------------
-   Continuously moving centres are, after ANY history, the scheduled centres of the last updated step that is not beyond
-   the end of the schedule, last_update = f * (min(t, t0 + N) / f) (the configured centres before the first update).
-   In particular they stop short of the target when targetNumSteps is not a multiple of f (recorded finding). *)
+   The schedule tests carry the factor (centers_update_tsf: continuous update while t - t0 < N + f with lambda = min(t - t0, N)/N,
+   staged move when (t - t0 - 1) mod N < f); for f = 1 they are the tests of the model used everywhere else: *)
+Theorem C06_timestepfactor_one : forall T (O : NumOps T) (c : rcfg) (s : rstate) (t rel : Z) (cont : bool) (xs : list T),
+  (0 < c_nsteps c)%Z ->
+  centers_update_tsf O 1 c s t rel cont = centers_update O c s t rel cont /\
+  k_update_tsf O 1 c s t rel cont xs = k_update O c s t rel cont xs.
+Proof. exact @tsf_one. Qed.
+Print Assumptions C06_timestepfactor_one.
+
+(* Continuously moving centres are, after ANY history, the scheduled centres of the last updated step f * (t / f) (the
+   configured centres before the first update); in particular they reach their targets whatever targetNumSteps is. *)
 Theorem C06_center_schedule_timestepfactor : forall T (O : NumOps T) (f : Z) (c : rcfg) (evs : list event),
   (0 < f)%Z -> c_chg_centers c = true -> c_nstages c = 0%Z -> (0 <= c_nsteps c)%Z -> (0 <= c_it0 c)%Z -> evs <> [] ->
   let m := run_tsf O f c evs in
-  ((c_it0 c <= last_update f c (m_it m))%Z -> s_centers (m_st m) = closed_centers O c (last_update f c (m_it m))) /\
-  ((last_update f c (m_it m) < c_it0 c)%Z -> s_centers (m_st m) = c_centers0 c).
+  ((c_it0 c <= last_update f (m_it m))%Z -> s_centers (m_st m) = closed_centers O c (last_update f (m_it m))) /\
+  ((last_update f (m_it m) < c_it0 c)%Z -> s_centers (m_st m) = c_centers0 c).
 Proof. exact @center_schedule_tsf. Qed.
 Print Assumptions C06_center_schedule_timestepfactor.
 
